@@ -114,6 +114,22 @@ pub fn oracle(ctx: &mut Ctx, c: &Case) -> Check {
         run_decode(&c.spec, &sp.render(), "spare-bytes")?;
         ctx.count("layout:spare-bytes");
     }
+    // (a meta box with a handler other than mdir keeps unknown children as data: not a skipped child there)
+    let skips_unknown = matches!(kind, "moov" | "trak" | "mdia" | "minf" | "stbl" | "dinf" | "udta" | "moof" | "traf" | "mvex" | "ilst" | "avc1" | "mp4a") || matches!(&c.spec, Spec::Meta(boxes::MetaS::Mdir { .. }));
+    if skips_unknown {
+        // a skipped (unknown / free) child, with a compact and with a 64-bit header, at a position
+        // derived from the case: the container must decode to the same fields
+        let fp = crate::engine::fp_of(&c.spec);
+        for (i, large) in [false, true].into_iter().enumerate() {
+            let mut n = node.clone();
+            let pos = ((fp >> (8 * i)) as usize) % (n.n_children() + 1);
+            let mut filler = Node::leaf(if large { "free" } else { "zzzz" }, (0..(fp as u8 % 13)).collect());
+            filler.large = large;
+            n.insert_child(pos, filler);
+            run_decode(&c.spec, &n.render(), if large { "unknown-child-64-bit-header" } else { "unknown-child" })?;
+        }
+        ctx.count("layout:unknown-child-inserted");
+    }
     if let Some(n) = with_esds_pad(&c.spec, 4) {
         run_decode(&c.spec, &n.render(), "padded-descriptor-lengths")?;
         ctx.count("layout:padded-descriptor-lengths");
